@@ -51,8 +51,29 @@ func (g *Gen) hostileCmd() []string {
 // targeted: shapes known to be dangerous for implementations of this kind
 func (g *Gen) targetedHostile() []string {
 	k := typedKeys[g.r.IntN(len(typedKeys))]
+	shape := g.r.IntN(24)
+	if g.chance(2) {
+		// mostly a key of the type the command works on: the dangerous paths lie
+		// behind the type check
+		switch shape {
+		case 0, 1, 2, 6, 7, 8, 9, 10, 11, 12:
+			k = g.pick("st", "num", "empty")
+		case 3, 4, 13, 14, 15, 16:
+			k = "ls"
+		case 22:
+			k = g.pick("ls", "ss")
+		}
+	}
 	big := g.pick("9223372036854775807", "-9223372036854775808", "4611686018427387904", "-4611686018427387904", "4294967296", "-1")
-	switch g.r.IntN(24) {
+	// pairs of numbers: extremes and small values in every combination (an
+	// overflow often needs a small offset next to a huge count, or the reverse)
+	mix := func() string {
+		if g.chance(2) {
+			return g.pick("0", "1", "2", "3", "-1", "-2")
+		}
+		return g.pick("9223372036854775807", "9223372036854775806", "-9223372036854775808", "-9223372036854775807", "4611686018427387904", "4294967296", "2147483648")
+	}
+	switch shape {
 	case 0:
 		return []string{"SETRANGE", k, big, "x"}
 	case 1:
@@ -66,11 +87,11 @@ func (g *Gen) targetedHostile() []string {
 	case 5:
 		return []string{g.pick("HRANDFIELD", "SRANDMEMBER"), k, g.pick("-9223372036854775808", "-1", "0")}
 	case 6:
-		return []string{"BITCOUNT", k, big, big}
+		return []string{"BITCOUNT", k, mix(), mix()}
 	case 7:
 		return []string{"BITCOUNT", k, g.pick("0", "5", "-1"), g.pick("10", "-1", "0"), g.pick("BIT", "BYTE")}
 	case 8:
-		return []string{"BITPOS", k, g.pick("0", "1", "2"), big, big}
+		return []string{"BITPOS", k, g.pick("0", "1", "2"), mix(), mix()}
 	case 9:
 		return []string{"BITFIELD", k, "GET", g.pick("u64", "i65", "u0", "i0", "x8", "u8"), big}
 	case 10:
@@ -78,11 +99,11 @@ func (g *Gen) targetedHostile() []string {
 	case 11:
 		return []string{"BITFIELD", k, "OVERFLOW", g.pick("WRAP", "SAT", "FAIL", "NOPE"), "INCRBY", "i8", g.pick("0", "#1", big), big}
 	case 12:
-		return []string{"GETRANGE", k, big, big}
+		return []string{"GETRANGE", k, mix(), mix()}
 	case 13:
-		return []string{"LRANGE", k, big, big}
+		return []string{"LRANGE", k, mix(), mix()}
 	case 14:
-		return []string{"LTRIM", k, big, big}
+		return []string{"LTRIM", k, mix(), mix()}
 	case 15:
 		return []string{"LINDEX", k, big}
 	case 16:
@@ -98,7 +119,11 @@ func (g *Gen) targetedHostile() []string {
 	case 21:
 		return []string{g.pick("HSCAN", "SSCAN"), k, g.pick("0", big, "-1"), "COUNT", g.pick("0", big, "1")}
 	case 22:
-		return []string{"SORT", k, "LIMIT", big, big}
+		a := []string{g.pick("SORT", "SORT", "SORT_RO"), k, "LIMIT", mix(), mix()}
+		if g.chance(2) {
+			a = append(a, g.pick("ALPHA", "DESC", "ASC"))
+		}
+		return a
 	default:
 		return []string{"CLIENT", "KILL", g.pick("ID", "ADDR", "LADDR", "USER", "TYPE", "SKIPME", "MAXAGE"), g.pick(big, "x", "normal", "pubsub", "nosuchuser", "yes")}
 	}
